@@ -154,8 +154,9 @@ func hasFeatureWithID(id b6.FeatureID, fbs []*featureBlock) bool {
 	for _, fb := range fbs {
 		ns, ok := fb.NamespaceTable.MaybeEncode(id.Namespace)
 		if ok && ns == fb.Namespaces[id.Type] {
-			_, ok := fb.Map.FindFirst(id.Value)
-			return ok
+			if _, ok := fb.Map.FindFirst(id.Value); ok {
+				return true
+			}
 		}
 	}
 	return false
@@ -800,7 +801,6 @@ func (f *FeaturesByID) FindRelationsByFeature(id b6.FeatureID) b6.RelationFeatur
 			case b6.FeatureTypeRelation:
 				relations = f.fillRelationsFromRelation(fb, id.Value, relations)
 			}
-			break
 		}
 	}
 	return ingest.NewRelationFeatureIterator(relations)
@@ -815,8 +815,10 @@ func (f *FeaturesByID) fillRelationsFromPoint(fb *featureBlock, id uint64, relat
 		for _, r := range p.Relations {
 			for _, rm := range f.features[b6.FeatureTypeRelation] {
 				if _, ns := r.TypeAndNamespace.Split(); ns == rm.Namespaces[b6.FeatureTypeRelation] {
-					relations = append(relations, f.newRelation(rm, r.Value))
-					break
+					if relation := f.newRelation(rm, r.Value); relation != nil {
+						relations = append(relations, relation)
+						break
+					}
 				}
 			}
 		}
@@ -832,8 +834,10 @@ func (f *FeaturesByID) fillRelationsFromPath(fb *featureBlock, id uint64, relati
 		for _, r := range p.Relations {
 			for _, rm := range f.features[b6.FeatureTypeRelation] {
 				if _, ns := r.TypeAndNamespace.Split(); ns == rm.Namespaces[b6.FeatureTypeRelation] {
-					relations = append(relations, f.newRelation(rm, r.Value))
-					break
+					if relation := f.newRelation(rm, r.Value); relation != nil {
+						relations = append(relations, relation)
+						break
+					}
 				}
 			}
 		}
@@ -849,8 +853,10 @@ func (f *FeaturesByID) fillRelationsFromArea(fb *featureBlock, id uint64, relati
 		for _, r := range a.Relations {
 			for _, rm := range f.features[b6.FeatureTypeRelation] {
 				if _, ns := r.TypeAndNamespace.Split(); ns == rm.Namespaces[b6.FeatureTypeRelation] {
-					relations = append(relations, f.newRelation(rm, r.Value))
-					break
+					if relation := f.newRelation(rm, r.Value); relation != nil {
+						relations = append(relations, relation)
+						break
+					}
 				}
 			}
 		}
@@ -866,8 +872,10 @@ func (f *FeaturesByID) fillRelationsFromRelation(fb *featureBlock, id uint64, re
 		for _, rr := range r.Relations {
 			for _, rm := range f.features[b6.FeatureTypeRelation] {
 				if _, ns := rr.TypeAndNamespace.Split(); ns == rm.Namespaces[b6.FeatureTypeRelation] {
-					relations = append(relations, f.newRelation(rm, rr.Value))
-					break
+					if relation := f.newRelation(rm, rr.Value); relation != nil {
+						relations = append(relations, relation)
+						break
+					}
 				}
 			}
 		}
